@@ -6,9 +6,10 @@
     ([C01_commit_A_textbook]); the range reduction ([C01_range_reduction]); the refinement of the
     code-shaped folding loop to the textbook prover (Proofs/ProverRefP.v); and C02's verifier equivalence.
     The model is tied to the implementation by the coordinate-level correspondence run on every check. *)
-From Coq Require Import List Arith NArith Bool.
+From Coq Require Import List Arith NArith Bool QArith Qcanon Lia.
 From BP Require Import Base.Field Model.Spec Model.RangeSpec Model.Verifier Model.Prover Proofs.WipP Proofs.GuardsP
-     Proofs.VerifierEquivP Proofs.RangeRedP Proofs.CompleteP.
+     Proofs.VerifierEquivP Proofs.RangeRedP Proofs.CompleteP Base.QcInst.
+Local Open Scope nat_scope.
 Import ListNotations.
 
 (** completeness of the whole argument, any number of rounds *)
@@ -74,3 +75,23 @@ Theorem C01_completeness : forall (K : Fld), FldOk K -> forall (M : Mod K), ModO
   = v0 M.
 Proof. exact completeness. Qed.
 Print Assumptions C01_completeness.
+
+(** Non-vacuity: the premises of [C01_completeness] hold on a concrete instance (rationals as field and
+    as vector space; 2 bits, 2 commitments, one with a promise; 2 rounds), so the theorem applies; and
+    the model computes: the honest proof gives residual 0, the same proof with r1 + 1 does not. *)
+Definition exg : gens QcF QcM := mkGens QcF QcM (q 2) [q 3] [q 5; q 7; q 11; q 13] [q 17; q 19; q 23; q 29].
+Definition exnn : nonces QcF := mkNonces QcF [q 31] [[q 37]; [q 41]] [[q 43]; [q 47]] (q 53) (q 59) [q 61] [q 67].
+Definition exch : pchals QcF := mkPchals QcF (q 2) (q 3) [q 5; q 7] (q 11).
+Definition exvalues := [1%N; 3%N]. Definition expromises := [None; Some 1%N]. Definition exbl := [[q 71]; [q 73]].
+Definition exp := prove_core QcF QcM 2 2 exg exvalues expromises exbl exnn exch.
+Definition excm := map (fun vr => commit QcF QcM exg (fofN QcF (fst vr)) (snd vr)) (combine exvalues exbl).
+Definition exres (r1 w : Qc) := terms_msm QcF QcM (proof_terms QcF 2 expromises (mkVproof QcF (pp_d1 exp) r1 (pp_s1 exp)) (mkChals QcF (q 2) (q 3) [q 5; q 7] (q 11)) w)
+            (firstn 4 (g_G exg)) (firstn 4 (g_Hv exg)) excm (g_H exg) (g_Gb exg) (pp_A1 exp) (pp_B exp) (pp_A exp) (pp_L exp) (pp_R exp).
+Example C01_ex_premises_hold : forall w : Qc, exres (pp_r1 exp) w = 0%Qc.
+Proof.
+  intros w.
+  apply (C01_completeness QcF QcF_ok QcM QcM_ok exg 2 2 exvalues expromises exbl exnn exch w 1); try reflexivity; try (cbn; lia);
+    try (cbn; discriminate); try (repeat constructor; cbn; try discriminate; try lia).
+Qed.
+Example C01_ex_computes : Qc_eq_bool (exres (pp_r1 exp) (q 9)) 0%Qc = true /\ Qc_eq_bool (exres (Qcplus (pp_r1 exp) 1%Qc) (q 9)) 0%Qc = false.
+Proof. split; vm_compute; reflexivity. Qed.
